@@ -97,6 +97,9 @@ SecondOk(m, e, res) ==
       [] m.on = "error"   -> e.second.kind = "error" /\ (tx.kind # "bank" => e.second.cf)     \* the target's error text
       [] OTHER            -> e.second.kind = "result" /\ e.second.ok = (res.result = "ok")
                              /\ ((res.result = "err" /\ tx.kind # "bank") => e.second.cf)
+                             \* the *full* result of a success: the chain's events, its message response, the data in its envelope
+                             /\ (res.result = "ok" => /\ e.second.full.events = ChainEvents(tx.kind, fx.fire.nev) /\ e.second.full.msgresp = 1
+                                                      /\ (tx.kind # "bank" => e.second.full.data = fx.callee.env_b64))
 (* the value handed to the data parameter is what the documented decoding of the chain's envelope yields *)
 ValueOk(mode, e, res) ==
     CASE ObservedExtract(mode, e) # "value" -> TRUE
